@@ -77,7 +77,17 @@ def make_pair(case):
 
 def prime(x):
     """what an earlier use of the object may have memoised: hash, comparison with a copy and with itself"""
-    for f in (lambda: hash(x), lambda: x == copy.deepcopy(x), lambda: x == x, lambda: str(x)):
+    import functools
+    uses = [lambda: hash(x), lambda: x == copy.deepcopy(x), lambda: x == x, lambda: str(x)]
+    # ... and the read-only queries of its public interface: every property, the look-ups by time step
+    for name in dir(type(x)):
+        if not name.startswith("_") and isinstance(getattr(type(x), name, None), (property, functools.cached_property)):
+            uses.append(lambda n=name: getattr(x, n))
+    for meth, arg in (("get_state_at_time_step", 3), ("occupancy_at_time", 1), ("state_at_time", 1),
+                      ("occupancy_at_time_step", 1), ("state_at_time_step", 1)):
+        if callable(getattr(x, meth, None)):
+            uses.append(lambda m=meth, a=arg: getattr(x, m)(a))
+    for f in uses:
         try:
             f()
         except Exception:  # noqa - judged by the plain cases
@@ -329,6 +339,8 @@ def gen_histories(rng, cname, spec, n_set=3):
         if K.try_build(s3)[0] is not None:
             out.append(([{"k": "2d"}], "convert_to_2d of 3-D polylines", s3))
         out.append(([{"k": "2d"}], "convert_to_2d", spec))
+    # the empty history: an object that was only used (hashed, compared, queried) against one that never was
+    out.append(([], "used, not changed", spec))
     cases = []
     for muts, how, sp in out:
         for rel in ("hist", "hist0"):
@@ -456,7 +468,7 @@ def select_for_corr(evaluated, cap):
         if ev["obs"] is None or has_minus_one(ev["rbx"]) or has_minus_one(ev["rby"]):
             continue
         if c["rel"] in ("hist", "hist0"):
-            per.setdefault(c["cls"] + " histories", {}).setdefault(c["muts"][0]["k"] + c["rel"], []).append(i)
+            per.setdefault(c["cls"] + " histories", {}).setdefault((c["muts"][0]["k"] if c["muts"] else "none") + c["rel"], []).append(i)
         elif c["rel"] != "pert":
             out.append(i)
         else:
